@@ -28,11 +28,11 @@ BUDGET = {"quick": 900, "thorough": 3400}
 XTAL = {"NaCl": ("NaCl-prim-2", [[2, 0, 0], [0, 1, 0], [0, 0, 1]]), "wz": ("wurtzite-4", [[1, 0, 0], [0, 1, 0], [0, 0, 1]])}
 
 OPS = ["fcA", "fcB", "fcAc", "dsD1", "dsD2", "prodF", "prodC", "gen", "sym1", "symsg", "cut", "nacN", "nacW", "nacG", "nacG2",
-       "m0", "m1", "copy", "qQ", "qM", "qB"]
+       "m0", "m1", "copy", "setF", "qQ", "qM", "qB"]
 QUERIES = ("qQ", "qM", "qB")
 # (root history, depth) per system: searching from non-initial states reaches longer histories at the same cost
-ROOTS = {"quick": {"NaCl": [([], 2), (["fcA"], 3)], "wz": [(["fcA"], 2)]},
-         "thorough": {"NaCl": [([], 3), (["fcA"], 4), (["fcAc", "nacG", "qQ"], 3)], "wz": [([], 2), (["fcA"], 3)]}}
+ROOTS = {"quick": {"NaCl": [([], 2), (["fcA"], 3), (["fcB", "nacG"], 2)], "wz": [(["fcB"], 2)]},
+         "thorough": {"NaCl": [([], 3), (["fcA"], 4), (["fcB", "nacG"], 3), (["fcAc", "nacG", "qQ"], 3)], "wz": [([], 2), (["fcB"], 3)]}}
 
 _env = {}
 
@@ -51,6 +51,8 @@ def _setup(system, seed):
     ph = phx.make_phonopy(c, S, None)
     A = phx.supercell_fc(ph, phx.model_for(ph, "nn", seed))
     B = phx.supercell_fc(ph, phx.model_for(ph, "nn", seed + 17)) * 1.3
+    # the second value set is deliberately NOT symmetric (drift + asymmetry), so that the symmetrisers and the cutoff change it
+    B = B + 0.03 * np.abs(B).max() * np.random.default_rng(3 + seed).normal(size=B.shape)
     p2s = np.asarray(ph.primitive.p2s_map)
     env = {"c": c, "S": S, "A": A, "B": B, "Ac": A[p2s].copy(), "name": name}
     for tag, dist, fc in (("D1", 0.01, A), ("D2", 0.03, B)):
@@ -128,6 +130,7 @@ class Run:
         self.env = _setup(system, seed)
         self.ph = _fresh(self.env)
         self.inputs = []   # (kind, live array handed to phonopy, pristine copy)
+        self.dict_inputs = []  # (kind, live dict handed to phonopy, deep snapshot)
         self.origins = []  # objects that were copied from
         self.modifier = {}  # input kind -> first operation after which the handed-in array differed
         self.error = None
@@ -151,6 +154,8 @@ class Run:
         for i, d in enumerate(d2["first_atoms"]):
             d["forces"] = self.give(kind + ".forces", d["forces"])
             d["displacement"] = self.give(kind + ".displacement", d["displacement"])
+        # the dict itself is an input too: remember its structure and values
+        self.dict_inputs.append((kind, d2, copy.deepcopy(d2)))
         return d2
 
     def enabled(self):
@@ -165,6 +170,8 @@ class Run:
             if op == "symsg" and has_fc and ph.force_constants.shape[0] != ph.force_constants.shape[1]:
                 continue  # space-group symmetriser is defined for the full layout only
             if op in ("prodF", "prodC") and not has_forces:
+                continue
+            if op == "setF" and not (ds is not None and "first_atoms" in ds):
                 continue
             if op == "dmnacG2" and not (has_fc and ph.nac_params is not None and ph.nac_params.get("method") == "gonze"):
                 continue
@@ -188,6 +195,10 @@ class Run:
             _ = ph.supercells_with_displacements  # the normal workflow reads the displaced cells (builds a cache)
         elif op in ("prodF", "prodC"):
             phx.quiet(ph.produce_force_constants, calculate_full_force_constants=(op == "prodF"), show_drift=False)
+        elif op == "setF":
+            from vtk.ref import springs as SP
+
+            ph.forces = self.give("forces", SP.forces_for_dataset(env["B"] if env["B"].shape[0] == env["B"].shape[1] else env["A"], ph.dataset))
         elif op == "gen":
             phx.quiet(ph.generate_displacements, distance=0.02)
             _ = ph.supercells_with_displacements
@@ -370,6 +381,15 @@ def run_history(system, seed, hist, check=True):
         if not np.array_equal(live, pristine, equal_nan=True):
             modifier = run.modifier.get(kind, "query")
             fail("alias-in/%s/modified-by-%s" % (kind, modifier), "array handed in as %s was modified (max change %.3g)" % (kind, np.nanmax(np.abs(live - pristine))))
+    for kind, live, snap in run.dict_inputs:
+        okd = live.keys() == snap.keys() and len(live.get("first_atoms", [])) == len(snap.get("first_atoms", []))
+        if okd:
+            for a, b in zip(live["first_atoms"], snap["first_atoms"]):
+                if a.keys() != b.keys() or any(not np.array_equal(np.asarray(a[k_]), np.asarray(b[k_])) for k_ in a):
+                    okd = False
+                    break
+        if not okd:
+            fail("alias-in/%s-dict" % kind, "the dataset dictionary handed in by the caller was modified (entries rewritten through a shared reference)")
     # (iii) arrays handed out do not alias internal state.  State-carrying getters are tried after every
     # transition, structural getters (cells, matrices) for histories of length <= 1 (they do not depend on history).
     if has_fc and (not hist or hist[-1] not in QUERIES or len(hist) <= 2):
@@ -377,7 +397,7 @@ def run_history(system, seed, hist, check=True):
         got_lite = battery(ph, lite=True)
         core = ("force_constants", "masses", "nac_params", "dataset", "qpoints_dict", "dynamical_matrix")
         for name in names:
-            if len(hist) > 1 and not name.startswith(core):
+            if len(hist) > 2 and not name.startswith(core):
                 continue
             arr = dict(handed_out(ph)).get(name)
             if arr is None or not arr.flags.writeable or arr.dtype.kind not in "fc":
